@@ -13,8 +13,10 @@
 (* because the model no longer describes the provider's state.                                          *)
 (*                                                                                                      *)
 (* obs = [P |-> per-path answers  [p, ex, f, oid, t, rp, h, sz],                                        *)
-(*        O |-> per-id answers    [oid, ex, f, t, rp, h, sz, de, dc, le, ls |-> <<[oid, n, t, h]>>],     *)
-(*        hd |-> hash_data(bytes of content c) for c = 1..10]     (hashes are small integers, 0 = none) *)
+(*        O |-> per-id answers    [oid, ex, f, t, rp, h, ho, sz, de, dc, le, ls |-> <<[oid, n, t, h]>>], *)
+(*              (h: info_oid(id).hash, ho: hash_oid(id))                                                 *)
+(*        hd |-> hash_data(bytes of content c) for every c of AllContents]                               *)
+(*                                                                 (hashes are small integers, 0 = none) *)
 (* exception classes: 0 none, 1 exists, 2 not found, 4 name error, 5 token error, 9 anything else.      *)
 EXTENDS ProviderModel, Json, IOUtils
 VARIABLES tid, l, ok, hs
@@ -67,7 +69,8 @@ OEval(f, r) ==                       \* info_oid / exists_oid / download / listd
       lshash == UNION {IF kidOf(r.ls[k]) # {} /\ f[Pick(kidOf(r.ls[k]))].type = FILE
                        THEN {<<1, f[Pick(kidOf(r.ls[k]))].content, r.ls[k].h>>} ELSE {} : k \in 1..Len(r.ls)}
   IN  Flag(InfoOK(r, m), 3) \cup Flag(r.ex = m.found, 4) \cup Flag(dlok, 5) \cup Flag(lsok, 6) \cup Flag(lsonce, 8)
-      \cup HashOf(r, m) \cup (IF isdir /\ r.le = 0 THEN lshash ELSE {})
+      \cup HashOf(r, m) \cup (IF isfile THEN {<<1, m.content, r.ho>>} ELSE {})
+      \cup (IF isdir /\ r.le = 0 THEN lshash ELSE {})
 
 \* the harness asked about every object of the tree (otherwise an agreement would be vacuous)
 QComplete(f, obs) ==
@@ -85,15 +88,13 @@ Reported(ev)     == {<<t[2], t[3]>> : t \in {u \in ev : u[1] = 1}}
 
 \* ---- hashes ----------------------------------------------------------------------------------------
 ScOf(S) == {SizeClass(c) : c \in S}
-CheckBySize(bad, name) == \A sc \in 0..3 : Check(sc \notin ScOf(bad), name \o "/" \o ToString(sc))
+CheckBySize(bad, name) == \A sc \in SizeClasses : Check(sc \notin ScOf(bad), name \o "/" \o ToString(sc))
+\* the hash law of ProviderModel, clause by clause (rep: reported at this line, allrep: in this trace so far)
 HashChecks(rep, hd, allrep) ==
-  /\ CheckBySize({pr[1] : pr \in {q \in rep : q[2] # hd[q[1]]}}, "HashMatchesData")
-  /\ CheckBySize({pr[1] : pr \in {q \in allrep : \E q2 \in allrep : q2[1] = q[1] /\ q2[2] # q[2]}}
-                 \cup {c \in AllContents : hd[c] # Tr[1].obs.hd[c]}, "EqualBytesEqualHash")
-  /\ CheckBySize({pr[1] : pr \in {q \in allrep : \E q2 \in allrep : q2[1] # q[1] /\ q2[2] = q[2]}},
-                 "DifferentBytesDifferentHash")
-HdInjective(hd) == CheckBySize({c \in AllContents : \E d \in AllContents : d # c /\ hd[d] = hd[c]},
-                               "DifferentBytesDifferentHash")
+  /\ CheckBySize(HashNotOfData(rep, hd), "HashMatchesData")
+  /\ CheckBySize(EqualBytesDiffer(allrep) \cup {c \in AllContents : hd[c] # Tr[1].obs.hd[c]}, "EqualBytesEqualHash")
+  /\ CheckBySize(DifferentBytesCollide(allrep), "DifferentBytesDifferentHash")
+HdInjective(hd) == CheckBySize(DataHashCollide(hd), "DifferentBytesDifferentHash")
 
 \* ---- events: every mutation reported with the right id and existence --------------------------------
 Idx(es, x)  == {i \in 1..Len(es) : NormOid(es[i].oid) = x}
